@@ -415,6 +415,33 @@ def protocol_cases():
             p.dataReceived(data)
             if not t.disconnecting or p._authenticated:
                 return '%s: connection not closed' % what
+        # a line longer than 16 KiB closes the connection whatever it is made of (blanks around a short command, a long
+        # DATA payload, a long CANCEL) and however it is cut into reads whose pending part stays below the limit; the peer
+        # is not authenticated by a BEGIN that follows
+        pad = 19000
+        longs = [b'AUTH ANONYMOUS' + b' ' * pad, b' ' * pad + b'AUTH ANONYMOUS', b'AUTH ANONYMOUS' + b'\t' * pad, b'AUTH' + b' ' * pad + b'ANONYMOUS',
+                 b'CANCEL' + b' ' * pad, b'DATA ' + b'61' * (pad // 2), b' ' * 16385, b'AUTH ANONYMOUS ' + b' ' * 16371]
+        for ln in longs:
+            stream = b'\0' + ln + b'\r\nAUTH ANONYMOUS\r\nBEGIN\r\n'
+            for how in ('one read', 'two halves', '4 KiB reads'):
+                step = {'one read': len(stream), 'two halves': (len(stream) + 1) // 2, '4 KiB reads': 4096}[how]
+                p = bus.BusProtocol()
+                p.factory = F
+                t = StringTransport()
+                p.makeConnection(t)
+                for i in range(0, len(stream), step):
+                    p.dataReceived(stream[i:i + step])
+                if not t.disconnecting or p._authenticated:
+                    return 'a %d-byte line (%r...%r) delivered in %s: connection %s, authenticated=%r' % (
+                        len(ln), ln[:16], ln[-4:], how, 'closed' if t.disconnecting else 'not closed', p._authenticated)
+        # ... and a line of exactly 16 KiB is not 'longer than 16 KiB': it is answered (ERROR for an unknown command)
+        p = bus.BusProtocol()
+        p.factory = F
+        t = StringTransport()
+        p.makeConnection(t)
+        p.dataReceived(b'\0' + b'FOO ' + b'x' * 16380 + b'\r\n')
+        if t.disconnecting or not t.value().startswith(b'ERROR'):
+            return 'a line of exactly 16384 bytes: closed=%r replies %r' % (t.disconnecting, t.value()[:40])
         # acceptable credentials are accepted: ANONYMOUS, and EXTERNAL with peer credentials
         for lines, creds in (([b'AUTH ANONYMOUS', b'BEGIN'], None), ([b'AUTH EXTERNAL 30', b'DATA', b'BEGIN'], (1, 0, 0))):
             p = bus.BusProtocol()
